@@ -32,7 +32,7 @@ EXPLANATION = ('(a) the 32 bytes pushed by make_taproot_lock equal P + clamp(sha
                '(b) OP_TAPROOT from an arbitrary witness state: script path evaluates exactly the supplied script iff (script, key) recompute to '
                'the root, else 0x00 and no evaluation; key path verdict = oracle verdict under the root with the flag rules; (c) builder '
                'witnesses (key spend with sign_with_scalar on x + t, script spend) unlock their lock; (d) native and non-native lock agree')
-MUST_REACH = ['root_identity', 'script_path_run', 'script_path_reject', 'key_path', 'keyspend_ok', 'scriptspend_ok', 'nonnative_agrees']
+MUST_REACH = ['graftap_ok', 'root_identity', 'script_path_run', 'script_path_reject', 'key_path', 'keyspend_ok', 'scriptspend_ok', 'nonnative_agrees']
 
 
 def _setup(c):
@@ -158,6 +158,50 @@ def h_keyspend(c, pkg, flag, allowed):
     permitted = (flag & ~allowed & 0xff) == 0
     c.check('keyspend_witness_unlocks_iff_flag_permitted', r[0] == 'ok' and r[1] is permitted, got=repr(r)[:160])
     c.reach('keyspend_ok')
+
+
+def h_graftap(c, pkg, flag, allowed):
+    """the graftap builders: make_graftap_lock(X, allowed) is the taproot lock of (X, graftroot script of X) with that allowed-flags
+    operand, and the key-spend witness made with `flag` unlocks it iff the flag is permitted"""
+    T_, F = pkg.tools, pkg.functions
+    _setup(c)
+    stubs.CONFIG.sig_mode = 'algebra'
+    seed = c.bytes('seed', 32)
+    m = c.bytes('m', 2)
+    sf = SDict({'sigfield1': m})
+    sf.wlog = []
+    al, fl = '%02x' % allowed, '%02x' % flag
+    with algebra.XorShortcut(pkg):
+        X = F.derive_point_from_scalar(F.derive_key_from_seed(seed))
+        algebra.mark_point(X)
+        lock = T_.make_graftap_lock(X, al)
+        ref = T_.make_taproot_lock(X, T_._make_graftap_committed_script(X), None, al)
+        c.check('graftap_lock_is_the_taproot_lock_of_key_and_graftroot_script', len(lock.bytes) == len(ref.bytes) and
+                bytes_eq(lock.bytes, ref.bytes), allowed=al)
+        wit = T_.make_graftap_witness_keyspend(seed, sf, fl)
+        r = outcome_of(F.run_auth_scripts, [wit, lock], sf)
+    permitted = (flag & ~allowed & 0xff) == 0
+    c.check('graftap_keyspend_unlocks_iff_flag_permitted', r[0] == 'ok' and r[1] is permitted, got=repr(r)[:160], flag=fl, allowed=al)
+    c.reach('graftap_ok')
+
+
+def r_graftap(inputs, params, obligation):
+    import tapescript
+    import tapescript.tools as RT
+    import tapescript.functions as RF
+    seed = inputs.get('seed', bytes(32))
+    sf = {'sigfield1': inputs.get('m', b'mm')}
+    al, fl = '%02x' % params['allowed'], '%02x' % params['flag']
+    try:
+        X = RF.derive_point_from_scalar(RF.derive_key_from_seed(seed))
+        lock = RT.make_graftap_lock(X, al)
+        ref = RT.make_taproot_lock(X, RT._make_graftap_committed_script(X), None, al)
+        got = tapescript.run_auth_scripts([RT.make_graftap_witness_keyspend(seed, dict(sf), fl), lock], dict(sf))
+    except BaseException as e:       # noqa
+        return {'reproduced': False, 'note': f'degenerate input: {type(e).__name__}: {e}'}
+    want = (params['flag'] & ~params['allowed'] & 0xff) == 0
+    return {'reproduced': lock.bytes != ref.bytes or got != want, 'lock_matches_reference': lock.bytes == ref.bytes, 'verdict': got,
+            'want': want}
 
 
 def h_scriptspend(c, pkg, slen):
@@ -311,6 +355,9 @@ HARNESSES = [
     HarnessSpec('root', h_root, lambda t: [{'slen': n} for n in ((1, 3) if t == 'quick' else (1, 2, 3, 8))], replay=r_generic,
                 signature=_sig, fallback=_fallback),
     HarnessSpec('step', h_step, _p_step, replay=r_generic, signature=_sig, fallback=_fallback),
+    HarnessSpec('graftap', h_graftap, lambda t: [{'flag': f, 'allowed': a} for f, a in ((0, 0), (1, 3), (4, 3), (0x40, 0x40)) +
+                                                 (((2, 2), (0x80, 0x7f), (0x81, 0x81)) if t != 'quick' else ())],
+                replay=r_graftap, signature=_sig, fallback=_fallback),
     HarnessSpec('keyspend', h_keyspend, [{'flag': 0, 'allowed': 0}, {'flag': 1, 'allowed': 3}, {'flag': 4, 'allowed': 3}], replay=r_generic,
                 signature=_sig, fallback=_fallback),
     HarnessSpec('scriptspend', h_scriptspend, lambda t: [{'slen': n} for n in ((1, 3) if t == 'quick' else (1, 2, 3, 8))],
